@@ -319,11 +319,17 @@ func (r *Rewriter) stmts(ss []Stmt, mut map[string]bool) []Stmt {
 				out = append(out, n)
 			}
 		case *If:
-			out = append(out, &If{Cond: n.Cond, Then: r.stmts(n.Then, mut), Else: r.stmtsOrNil(n.Else, mut)})
+			// literals inside a condition may become calls (a call returning a literal is pure, so
+			// this also holds for loop conditions, which are re-evaluated)
+			out = append(out, &If{Cond: r.rewriteExpr(n.Cond, true), Then: r.stmts(n.Then, mut), Else: r.stmtsOrNil(n.Else, mut)})
 		case *While:
-			out = append(out, &While{Cond: n.Cond, Body: r.stmts(n.Body, mut)})
+			out = append(out, &While{Cond: r.rewriteExpr(n.Cond, true), Body: r.stmts(n.Body, mut)})
 		case *ForRange:
-			out = append(out, &ForRange{Var: n.Var, T: n.T, Lo: n.Lo, Hi: n.Hi, Incl: n.Incl, Body: r.stmts(n.Body, mut)})
+			fr := &ForRange{Var: n.Var, T: n.T, Lo: r.rewriteExpr(n.Lo, true), Hi: r.rewriteExpr(n.Hi, true), Incl: n.Incl, Body: r.stmts(n.Body, mut)}
+			if n.Step != nil {
+				fr.Step = r.rewriteExpr(n.Step, true)
+			}
+			out = append(out, fr)
 		case *Match:
 			m := &Match{Subj: n.Subj, HasDef: n.HasDef, Default: r.stmtsOrNil(n.Default, mut)}
 			for _, a := range n.Arms {
@@ -460,6 +466,9 @@ func collectIndexVars(ss []Stmt, out map[string]bool) {
 		case *ForRange:
 			expr(n.Lo)
 			expr(n.Hi)
+			if n.Step != nil {
+				expr(n.Step)
+			}
 			collectIndexVars(n.Body, out)
 		case *ForDyn:
 			expr(n.Arr)
